@@ -2,7 +2,6 @@ use crate::cell;
 use crate::cell::Cell;
 use crate::error::Error;
 use crate::error::Error::InvalidSyntax;
-use crate::number::Number;
 
 macro_rules! car {
     ($cell:expr) => {{
@@ -171,34 +170,19 @@ impl Transform {
     ///
     /// The memory the rules hold, in units of one vcell: the cells their patterns,
     /// templates and literals are made of, and the text of the strings and symbols
-    /// among them. Every pattern keeps a copy of the literals.
+    /// among them. The keyword, the ellipsis and the literals are copies of the
+    /// transformer's own, and every pattern keeps the ellipsis, the literals and its
+    /// variables once more.
     pub fn weight(&self) -> usize {
-        let mut pending: Vec<&Cell> = self.literals.iter().collect();
+        let own = [&self.keyword, &self.ellipsis];
+        let mut cells: Vec<&Cell> = own.into_iter().chain(self.literals.iter()).collect();
         for (pattern, template) in &self.syntax_rules {
-            pending.push(&pattern.expr);
-            pending.push(template);
-            pending.extend(pattern.literals.iter());
+            cells.extend([&pattern.expr, &pattern.ellipsis, &pattern.underscore, template]);
+            cells.extend(pattern.literals.iter());
+            cells.extend(pattern.variables.iter());
+            cells.extend(pattern.expanded_variables.iter());
         }
-        let mut weight = 0_usize;
-        while let Some(cell) = pending.pop() {
-            weight = weight.saturating_add(1);
-            match cell {
-                Cell::Pair(car, cdr) => {
-                    pending.push(car);
-                    pending.push(cdr);
-                }
-                Cell::Vector(vector) => pending.extend(vector.iter()),
-                Cell::String(text) | Cell::Symbol(text) => {
-                    weight = weight.saturating_add(text.len() / std::mem::size_of::<Cell>());
-                }
-                Cell::Number(Number::BigInt(num)) => {
-                    let bytes = usize::try_from(num.bits() / 8).unwrap_or(usize::MAX);
-                    weight = weight.saturating_add(bytes / std::mem::size_of::<Cell>());
-                }
-                _ => {}
-            }
-        }
-        weight
+        Cell::weight(cells)
     }
 
     /// Try New
